@@ -71,11 +71,12 @@ type generator struct {
 	uniq      int
 	// package-level DAG (keeps PACKAGE_NO_IMPORT_CYCLE quiet): a file may refer to types of its own
 	// package and of packages that appeared earlier
-	pkgRank  map[string]int
-	typePkg  map[string]string
-	curPkg   string
-	pkgNames map[string]map[string]bool // top-level names used per package
-	extTags  map[string]bool            // extendee#number already used
+	pkgRank    map[string]int
+	typePkg    map[string]string
+	curPkg     string
+	pkgNames   map[string]map[string]bool // top-level names used per package
+	extTags    map[string]bool            // extendee#number already used
+	nestedOpts *File
 }
 
 func (g *generator) visible(pool []string) []string {
@@ -345,6 +346,11 @@ func Generate(r *rand.Rand, cfg Config) *Schema {
 		if cfg.CustomOptions && mi == 0 {
 			optsFile = g.optionsFile(modWord)
 			mod.Files = append(mod.Files, optsFile)
+			// a second options file whose only extension is declared inside a message
+			g.nestedOpts = &File{Path: strings.ReplaceAll(optsFile.Package, ".", "/") + "/nested_opts.proto", Syntax: "proto2", Package: optsFile.Package,
+				Messages: []*Message{{Name: "OptionHolder", Comment: "OptionHolder only scopes an option.", Extends: []*Extend{{Extendee: "google.protobuf.FieldOptions",
+					Fields: []*Field{{Name: "nested_tag", Number: 50020, Label: "optional", Kind: "scalar", Type: "string", Comment: "A nested option."}}}}}}}
+			mod.Files = append(mod.Files, g.nestedOpts)
 		}
 		pkgSyntax := map[string]string{}
 		pkgOpts := map[string][]Opt{}
@@ -518,6 +524,8 @@ func (g *generator) fillFile(f *File, optsFile *File) {
 			for _, fl := range m.Fields {
 				if r.IntN(8) == 0 && fl.Kind != "group" {
 					fl.Options = append(fl.Options, Opt{"(" + op + ".field_tag)", fmt.Sprintf("%q", fl.Name)})
+				} else if g.nestedOpts != nil && r.IntN(10) == 0 && fl.Kind != "group" {
+					fl.Options = append(fl.Options, Opt{"(" + op + ".OptionHolder.nested_tag)", fmt.Sprintf("%q", "n-"+fl.Name)})
 				}
 			}
 		}
